@@ -168,7 +168,8 @@ def snap(o, depth=0):
         return ('L', type(o).__name__, tuple(snap(x, depth + 1) for x in o))
     if isinstance(o, dict):
         return ('D', tuple((repr(k), snap(v, depth + 1)) for k, v in sorted(o.items(), key=lambda kv: repr(kv[0]))))
-    if hasattr(o, '__dict__') and not callable(o) or type(o).__name__ in HELPER_CLASSES:
+    import inspect
+    if hasattr(o, '__dict__') and not (inspect.isroutine(o) or inspect.isclass(o) or inspect.ismodule(o)):
         return _state(o, depth)
     return ('other', type(o).__name__)
 
@@ -255,6 +256,17 @@ class Env:
     def reg(self, name, obj):
         self.objs[name] = obj
         return obj
+
+    def size(self, name, value):
+        """A size / shape parameter (box_size, fit_shape, border_width ...): plain Python value or, half
+        of the time, a caller-owned integer ndarray (1- or 2-element), which is watched."""
+        r = self.rng.random()
+        if r < 0.5:
+            return value
+        arr = np.array(value if np.ndim(value) else ([value, value] if r < 0.8 else value), dtype=int)
+        if r > 0.9:
+            arr = arr.astype(np.int32)
+        return self.reg(name, arr)
 
     def unwatch(self, name):
         self.objs.pop(name, None)
@@ -448,7 +460,8 @@ def s_centroid_quadratic(E):
     if E.v['opt'] != 'auto':
         kw = dict(xpeak=8, ypeak=7)
     if E.v['opt'] == 'search':
-        kw['search_boxsize'] = 5
+        kw['search_boxsize'] = E.size('search_boxsize', 5)
+    kw['fit_boxsize'] = E.size('fit_boxsize', 5)
     E.call('call', lambda: centroid_quadratic(data, mask=mask, **kw))
 
 
@@ -487,7 +500,7 @@ def s_centroid_sources(E):
         fp[0, 0] = fp[-1, -1] = False
         kw['footprint'] = E.reg('footprint', fp)
     else:
-        kw['box_size'] = 9
+        kw['box_size'] = E.size('box_size', 9)
     E.call('call', lambda: centroid_sources(data, xpos, ypos, mask=mask, centroid_func=func, **kw))
 
 
@@ -508,6 +521,10 @@ def s_find_peaks(E):
             kw['error'] = err
     elif E.v['opt'] == 'threshold2d':
         thr = E.like('threshold', np.full(E.shape, 20.0), 'readonly' if E.v['data'] == 'readonly' else 'ndarray')
+    if 'footprint' not in kw:
+        kw['box_size'] = E.size('box_size', 5)
+    if E.rng.random() < 0.5:
+        kw['border_width'] = E.size('border_width', 2)
     E.call('call', lambda: find_peaks(data, thr, mask=mask, **kw))
 
 
@@ -571,6 +588,7 @@ def s_background2d(E):
                                       BiweightLocationBackground, ModeEstimatorBackground,
                                       MADStdBackgroundRMS, BiweightScaleBackgroundRMS, BkgIDWInterpolator,
                                       BkgZoomInterpolator)
+    from astropy.stats import SigmaClip
     if E.v['box'] in ('exact', 'full'):
         E.shape = (40, 40)          # an integer number of boxes: no padded edge, reshapes can be views
     data, mask = E.data(), E.mask()
@@ -594,7 +612,16 @@ def s_background2d(E):
     kw['interpolator'] = BkgIDWInterpolator() if E.v['interp'] == 'idw' else BkgZoomInterpolator()
     if E.v['filt'] == 'threshold':
         kw['filter_threshold'] = 6.0
-    bkg = E.call('init', lambda: Background2D(data, box, mask=mask, filter_size=3 if E.v['box'] != 'full' else 1, **kw))
+    for nm_ in ('bkg_estimator', 'bkgrms_estimator', 'interpolator'):
+        if nm_ in kw:
+            E.reg(nm_, kw[nm_])
+    kw['sigma_clip'] = E.reg('sigma_clip', SigmaClip(sigma=3.0, maxiters=5)) if E.rng.random() < 0.7 else None
+    box = E.size('box_size', box)
+    fs = E.size('filter_size', 3 if E.v['box'] != 'full' else 1)
+    bkg = E.call('init', lambda: Background2D(data, box, mask=mask, filter_size=fs, **kw))
+    for nm_ in ('bkg_estimator', 'bkgrms_estimator'):
+        if nm_ in kw:      # the caller's estimator still behaves as before
+            E.call(nm_ + '.call', lambda nm_=nm_: kw[nm_](np.asarray(E.plain)))
     if bkg is not None:
         names = ['background', 'background_rms', 'background_mesh', 'background_rms_mesh',
                  'background_median', 'background_rms_median', 'mesh_nmasked', 'npixels_mesh',
@@ -615,7 +642,7 @@ def s_background2d_blocks(E):
     boxes / equals the axis / does not divide / larger than the axis), C- and F-contiguous float64
     input, with masked, coverage-masked and sigma-clipped pixels that carry finite values."""
     from astropy.stats import SigmaClip
-    from photutils.background import Background2D, MedianBackground, MeanBackground
+    from photutils.background import Background2D, MedianBackground, MeanBackground, MADStdBackgroundRMS
     ny, nx = [int(t) for t in E.v['shape'].split('x')]
     E.shape = (ny, nx)
 
@@ -654,6 +681,12 @@ def s_background2d_blocks(E):
         kw['sigma_clip'] = None
     if E.v['est'] != 'default':
         kw['bkg_estimator'] = MedianBackground() if E.v['est'] == 'median' else MeanBackground()
+    if 'bkg_estimator' in kw:
+        E.reg('bkg_estimator', kw['bkg_estimator'])
+        kw['bkgrms_estimator'] = E.reg('bkgrms_estimator', MADStdBackgroundRMS())
+    if kw.get('sigma_clip', 1) is not None:
+        kw['sigma_clip'] = E.reg('sigma_clip', SigmaClip(sigma=3.0, maxiters=10))
+    bs = E.size('box_size', bs)
     bkg = E.call('init', lambda: Background2D(data, bs, filter_size=1, edge_method=E.v['edge'],
                                               exclude_percentile=90.0, **kw))
     if bkg is not None:
@@ -685,7 +718,8 @@ def s_localbkg(E):
     data, mask = E.data(), E.mask()
     x = E.reg('x', np.array([s[0] for s in E.stars]))
     y = E.reg('y', np.array([s[1] for s in E.stars]))
-    lb = LocalBackground(5, 9)
+    from photutils.background import MedianBackground
+    lb = E.reg('local_bkg', LocalBackground(5, 9, bkg_estimator=E.reg('bkg_estimator', MedianBackground())))
     E.call('call', lambda: lb(data, x, y, mask=mask))
 
 
@@ -708,6 +742,8 @@ def s_detect_threshold(E):
         kw['background'] = 4.0 if E.unit is None else 4.0 * E.unit
     elif E.v['bkg'] == 'array':
         kw['background'] = E.like('background', np.full(E.shape, 4.0))
+    from astropy.stats import SigmaClip
+    kw['sigma_clip'] = E.reg('sigma_clip', SigmaClip(sigma=3.0, maxiters=5))
     E.call('call', lambda: detect_threshold(data, 2.0, error=error, mask=mask, **kw))
 
 
@@ -1122,8 +1158,8 @@ def s_aperture_stats(E):
     kw = {}
     if E.v['lb'] == 'array':
         kw['local_bkg'] = E.like('local_bkg', np.full(len(ap), 2.0))
-    st = E.call('init', lambda: ApertureStats(data, ap, error=error, mask=mask,
-                                              sigma_clip=SigmaClip(3.0) if E.v['clip'] == 'clip' else None,
+    sc = E.reg('sigma_clip', SigmaClip(3.0)) if E.v['clip'] == 'clip' else None
+    st = E.call('init', lambda: ApertureStats(data, ap, error=error, mask=mask, sigma_clip=sc,
                                               sum_method=E.v['method'], **kw))
     if st is None:
         return
@@ -1215,10 +1251,14 @@ def s_psfphot(E):
         init.meta['note'] = 'caller table'
         E.reg('init_params', init)
     thr = 10.0 if E.unit is None else 10.0 * E.unit
-    phot = E.call('init', lambda: PSFPhotometry(
-        model, (7, 7), finder=DAOStarFinder(thr, 3.5),
-        grouper=SourceGrouper(8.0) if E.v['grp'] == 'grouper' else None,
-        localbkg_estimator=LocalBackground(6, 10) if E.v['lb'] == 'local' else None, aperture_radius=4.0))
+    from astropy.modeling.fitting import TRFLSQFitter
+    finder = E.reg('finder', DAOStarFinder(thr, 3.5))
+    grouper = E.reg('grouper', SourceGrouper(8.0)) if E.v['grp'] == 'grouper' else None
+    lbe = E.reg('localbkg_estimator', LocalBackground(6, 10)) if E.v['lb'] == 'local' else None
+    fitter = E.reg('fitter', TRFLSQFitter())
+    fit_shape = E.size('fit_shape', (7, 7))
+    phot = E.call('init', lambda: PSFPhotometry(model, fit_shape, finder=finder, grouper=grouper, fitter=fitter,
+                                                localbkg_estimator=lbe, aperture_radius=4.0))
     if phot is None:
         return
     res = E.call('call', lambda: phot(data, mask=mask, error=error, init_params=init))
@@ -1244,7 +1284,9 @@ def s_iterpsf(E):
         init['y'] = [s[1] for s in E.stars[:2]]
         E.reg('init_params', init)
     thr = 10.0 if E.unit is None else 10.0 * E.unit
-    phot = IterativePSFPhotometry(model, (7, 7), DAOStarFinder(thr, 3.5), grouper=SourceGrouper(8.0),
+    finder = E.reg('finder', DAOStarFinder(thr, 3.5))
+    grouper = E.reg('grouper', SourceGrouper(8.0))
+    phot = IterativePSFPhotometry(model, E.size('fit_shape', (7, 7)), finder, grouper=grouper,
                                   aperture_radius=4.0, maxiters=2, mode=E.v['mode'])
     res = E.call('call', lambda: phot(data, mask=mask, error=error, init_params=init))
     if res is not None:
@@ -1257,8 +1299,9 @@ def s_psf_helpers(E):
     from photutils.psf import fit_2dgaussian, fit_fwhm
     data, mask, error = E.data(), E.mask(), E.error()
     xypos = E.reg('xypos', np.array(_xy(E)))
-    E.call('fit_fwhm', lambda: fit_fwhm(data, xypos=xypos, fit_shape=7, mask=mask, error=error))
-    E.call('fit_2dgaussian', lambda: fit_2dgaussian(data, xypos=xypos, fit_shape=7, mask=mask, error=error).results)
+    fsh = E.size('fit_shape', 7)
+    E.call('fit_fwhm', lambda: fit_fwhm(data, xypos=xypos, fit_shape=fsh, mask=mask, error=error))
+    E.call('fit_2dgaussian', lambda: fit_2dgaussian(data, xypos=xypos, fit_shape=fsh, mask=mask, error=error).results)
     _cut = np.array(E.plain[5:20, 4:19])
     cut = E.reg('cutout', _cut)
     E.call('fit_fwhm_noxy', lambda: fit_fwhm(cut))
@@ -1280,7 +1323,8 @@ def s_extract_stars(E):
     tbl['x'] = [s[0] for s in E.stars]
     tbl['y'] = [s[1] for s in E.stars]
     E.reg('catalog', tbl)
-    stars = E.call('extract_stars', lambda: extract_stars(nd, tbl, size=11))
+    sz = E.size('size', 11)
+    stars = E.call('extract_stars', lambda: extract_stars(nd, tbl, size=sz))
     if stars is None:
         return
     E.props(stars, ['cutout_center_flat', 'center_flat', 'n_stars', 'n_all_stars', 'n_good_stars', 'all_stars',
@@ -1289,7 +1333,11 @@ def s_extract_stars(E):
     E.props(s0, ['estimate_flux', 'cutout_center', 'center', 'slices', 'bbox', 'shape'], prefix='star.')
     if E.v['build'] == 'yes':
         E.reg('stars', stars)
-        b = EPSFBuilder(oversampling=2, maxiters=2, progress_bar=False, recentering_maxiters=3)
+        from astropy.stats import SigmaClip
+        from photutils.psf import EPSFFitter
+        b = EPSFBuilder(oversampling=2, maxiters=2, progress_bar=False, recentering_maxiters=3,
+                        sigma_clip=E.reg('sigma_clip', SigmaClip(sigma=3, maxiters=5)),
+                        fitter=E.reg('epsf_fitter', EPSFFitter()), recentering_boxsize=E.size('recentering_boxsize', (5, 5)))
         E.call('EPSFBuilder', lambda: b(stars))
 
 
@@ -1322,6 +1370,15 @@ def s_psf_models(E):
         yy, xx2 = np.mgrid[0:9, 0:9]
         E.call('GriddedPSFModel.evaluate', lambda: g.evaluate(xx2, yy, 10.0, 4.2, 4.1))
         E.call('GriddedPSFModel.copy', lambda: g.copy())
+    from photutils.psf import grid_from_epsfs
+    fin = np.where(np.isfinite(img), img, 0)
+    epsfs = [ImagePSF(fin * f, x_0=a_, y_0=b_, oversampling=2)
+             for f, (a_, b_) in zip((1.0, 1.1, 0.9, 1.05), ((0, 0), (40, 0), (0, 40), (40, 40)))]
+    E.reg('epsfs', epsfs)
+    meta = E.reg('meta', {'who': 'caller', 'oversampling': 99})
+    E.call('grid_from_epsfs', lambda: grid_from_epsfs(epsfs, meta=meta))
+    xyp = E.reg('grid_xypos', [(0, 0), (40, 0), (0, 40), (40, 40)])
+    E.call('grid_from_epsfs_xypos', lambda: grid_from_epsfs(epsfs, grid_xypos=xyp, meta=meta))
     p1 = E.wrap('source_psf', np.where(np.isfinite(img), img, 0), E.v['data'])
     p2 = E.wrap('target_psf', np.exp(-(x ** 2 + y ** 2) / (2 * 2.2 ** 2)), E.v['data'])
     E.call('create_matching_kernel', lambda: create_matching_kernel(p1, p2, window=TopHatWindow(0.4)))
@@ -1401,13 +1458,27 @@ def s_psf_model_evaluation(E):
     E.call('call_again', lambda: model(x, y))
 
 
-ND_UNC = ['none', 'nounit', 'equal', 'convertible', 'copy_false_equal', 'copy_false_convertible']
+ND_UNC = ['none', 'nounit', 'equal', 'convertible', 'copy_false_equal', 'copy_false_convertible', 'weights',
+          'copy_false_weights']
+
+
+def _weights_uncertainty():
+    """An NDUncertainty whose uncertainty_type is 'weights' (extract_stars documents that such an
+    uncertainty is taken as the pixel weights; astropy ships no class of that type)."""
+    from astropy.nddata import StdDevUncertainty
+
+    class WeightsUncertainty(StdDevUncertainty):
+        @property
+        def uncertainty_type(self):
+            return 'weights'
+    return WeightsUncertainty
 
 
 # the full product (data unit) x (uncertainty unit / copy mode) x (uncertainty class) is enumerated: every
 # combination is visited in turn, and each NDData goes through EVERY NDData-accepting entry point
 ND_COMBOS = [f'{a}|{b}|{c}' for a in ('none', 'Jy') for b in ND_UNC for c in ('std', 'var', 'ivar')
-             if not (b == 'none' and c != 'std') and not (a == 'none' and 'convertible' in b)]
+             if not (b in ('none', 'weights', 'copy_false_weights') and c != 'std')
+             and not (a == 'none' and 'convertible' in b) and not (a == 'Jy' and 'weights' in b)]
 ND_ENTRIES = ['psf', 'iterpsf', 'aperture_photometry', 'ApertureStats', 'Background2D', 'extract_stars']
 
 
@@ -1445,6 +1516,8 @@ def _nddata_entry(E, entry):
             if base is u.mJy:
                 vals = vals * {'std': 1e3, 'var': 1e6, 'ivar': 1e-6}[E.v['unctype']]
             uunit = {'std': base, 'var': base ** 2, 'ivar': 1 / base ** 2}[E.v['unctype']]
+        if 'weights' in k:
+            cls, vals, uunit = _weights_uncertainty(), 1.0 / sig, None
         earr = E.reg('error_array', np.array(vals))
         unc = cls(earr, unit=uunit, copy=not k.startswith('copy_false'))
     nd = E.reg('nddata', NDData(arr, mask=m, uncertainty=unc, unit=dunit, meta={'who': 'caller'}))
@@ -1595,7 +1668,8 @@ def s_utils_misc(E):
     from photutils.morphology import data_properties, gini
     data, mask = E.data(), E.mask()
     pos = (3, 4) if E.v['mode'] != 'strict' else (15, 15)
-    cut = E.call('CutoutImage', lambda: CutoutImage(data, pos, (9, 9), mode=E.v['mode'], copy=E.v['copy'] == 'copy'))
+    cshape = E.size('cutout_shape', (9, 9))
+    cut = E.call('CutoutImage', lambda: CutoutImage(data, pos, cshape, mode=E.v['mode'], copy=E.v['copy'] == 'copy'))
     if cut is not None:
         E.props(cut, ['data', 'bbox_original', 'bbox_cutout', 'slices_original', 'slices_cutout', 'xyorigin'],
                 prefix='CutoutImage.')
@@ -1604,7 +1678,10 @@ def s_utils_misc(E):
     E.call('data_properties_bkg', lambda: data_properties(data, mask=mask, background=bk).to_table())
     E.call('gini', lambda: gini(data, mask=mask))
     m2 = mask if mask is not None else E.mask('mask2', force='allfalse')
-    dep = ImageDepth(2.0, napers=20, niters=2, seed=1, progress_bar=False, overlap=False)
+    from astropy.stats import SigmaClip
+    # (the ImageDepth object itself is not watched: its __call__ stores the results on the instance, as documented)
+    dep = ImageDepth(2.0, napers=20, niters=2, seed=1, progress_bar=False, overlap=False,
+                     sigma_clip=E.reg('sigma_clip', SigmaClip(sigma=3.0, maxiters=5)))
     E.call('ImageDepth', lambda: dep(data, m2))
     coords = E.reg('coords', E.nrng.random((30, 2)))
     vals = E.reg('values', E.nrng.random(30))
@@ -1638,7 +1715,7 @@ def run_scenario(name, variant, seed, report, stat=None, count=None):
 # relative cost: how many variants per scenario in the quick tier
 WEIGHT = {'isophote': 6, 'PSFPhotometry': 30, 'IterativePSFPhotometry': 14, 'psf_fitting_helpers': 14,
           'extract_stars_epsf': 16, 'SourceCatalog': 24, 'ApertureStats': 30, 'centroid_2dg': 30,
-          'centroid_com': 30, 'SegmentationImage': 42, 'psf_models': 12, 'Background2D': 40,
+          'centroid_com': 30, 'SegmentationImage': 42, 'psf_models': 16, 'Background2D': 40,
           'Background2D_blocks': 150, 'psf_model_evaluation': 90,
           'aperture_plotting': 48, 'plot_helpers': 10, 'nddata_entry_points': 52}
 DEFAULT_WEIGHT = 36
@@ -1728,6 +1805,8 @@ SAFE_CLASSES = (
     'photutils.detection.daofinder._DAOStarFinderCatalog',    # own life-cycle obligation below
     'photutils.detection.irafstarfinder._IRAFStarFinderCatalog',   # own life-cycle obligation below
     'photutils.utils.interpolation.ShepardIDWInterpolator',   # own life-cycle obligation below
+    'photutils.psf.epsf_stars.EPSFStar',                      # __init__ is an obligation below
+    'photutils.psf.gridded_models.GriddedPSFModel',           # _validate_data / evaluate are obligations; __init__ uses map()
 )
 # kind, module, name, methods, related dynamic scenarios (violation search), signatures that explain a rejection
 TARGETS = [
@@ -1806,6 +1885,9 @@ TARGETS = [
     ('methods', 'photutils.psf.image_models', 'ImagePSF', ['_validate_data', '__init__'], ['psf_models', 'psf_model_evaluation'], []),
     ('methods', 'photutils.psf.gridded_models', 'GriddedPSFModel', ['_validate_data'], ['psf_models'], []),
     ('methods', 'photutils.psf.epsf_stars', 'EPSFStar', ['__init__'], ['extract_stars_epsf'], []),
+    ('function', 'photutils.psf.model_helpers', 'grid_from_epsfs', None, ['psf_models'], [r'^psf_models:grid_from_epsfs']),
+    ('function', 'photutils.psf.epsf_stars', '_extract_stars', None, ['extract_stars_epsf', 'nddata_entry_points'],
+     [r'extract_stars']),
     ('class', 'photutils.profiles.radial_profile', 'RadialProfile', None, ['RadialProfile'], [r'^ProfileBase', r'^RadialProfile:']),
     ('class', 'photutils.profiles.curve_of_growth', 'CurveOfGrowth', None, ['CurveOfGrowth'], [r'^ProfileBase', r'^CurveOfGrowth:']),
     ('class', 'photutils.detection.starfinder', '_StarFinderCatalog', None, ['StarFinder'], [r'^StarFinder.find_stars:data']),
@@ -1816,7 +1898,7 @@ TARGETS = [
 
 
 # parameters that are not among the kinds of object the property protects (DESIGN section 6, note)
-UNPROTECTED = {'Background2D': ('bkg_estimator', 'bkgrms_estimator', 'sigma_clip', 'interpolator')}
+UNPROTECTED = {}      # (estimators, SigmaClip objects, interpolators ... are caller-supplied objects like any other)
 
 # candidates examined and NOT expressible as a static obligation: they stay dynamic-only (recorded in the
 # evidence with the construct that stops the translator or the abstraction that makes the analysis reject)
@@ -1840,7 +1922,7 @@ DYNAMIC_ONLY = {
     'PSFPhotometry._prepare_init_params / _prepare_fit_inputs / __call__ / make_residual_image': 'calls the user finder / grouper / fitter objects (`self.finder(...)`), recursion for NDData input',
     'PSFPhotometry._check_init_units': 'writes a column of its ARGUMENT by contract (the caller passes init_params.copy())',
     'PSFPhotometry._define_fit_data': 'analysis rejects: per-source cutouts are views of the data and are multiplied in place only after a conditional copy the flow-insensitive container abstraction cannot see',
-    'photutils.psf.epsf_stars.extract_stars': 'wcs.world_to_pixel dispatch and EPSFStars container classes (EPSFStar.__init__ IS a static obligation)',
+    'photutils.psf.epsf_stars.extract_stars': 'isinstance-driven normalisation of lists of NDData / catalogs and the EPSFStars / LinkedEPSFStar container classes (its worker _extract_stars and EPSFStar.__init__ ARE static obligations)',
     'photutils.isophote.*': 'EllipseGeometry / EllipseSample object graph with many in-place own-state updates (documented mutators of their own object)',
     'SourceCatalog lazy properties other than the listed input-preparation methods': 'decorator stack (@as_scalar / @use_detcat wrappers), per-source object lists',
 }
@@ -2032,6 +2114,7 @@ def check_tables(ctx):
               biweight_scale=__import__('astropy.stats', fromlist=['x']).biweight_scale,
               mad_std=__import__('astropy.stats', fromlist=['x']).mad_std,
               StdDevUncertainty=__import__('astropy.nddata', fromlist=['x']).StdDevUncertainty,
+              NDData=__import__('astropy.nddata', fromlist=['x']).NDData,
               VarianceUncertainty=__import__('astropy.nddata', fromlist=['x']).VarianceUncertainty, PchipInterpolator=PchipInterpolator, pstats=pstats,
               TRFLSQFitter=TRFLSQFitter, Gaussian1D=Gaussian1D, Gaussian2D=Gaussian2D)
     rows = [(k, r) for k, r in T.EXT.items()] + [('method.' + k, r) for k, r in T.METHODS.items()]
